@@ -2,7 +2,8 @@
 (***************************************************************************)
 (* Transcript file formats of pydrobert.torch (_parsing.py, _textgrid.py): *)
 (*   trn   read_trn / write_trn            tokens and nested alternates    *)
-(*   ctm   read_ctm / write_ctm            timed tokens, wave/channel map  *)
+(*   ctm   read_ctm / write_ctm            timed tokens, wave/channel map, *)
+(*         times so small / large that they print in scientific notation   *)
 (*   tg    read_textgrid / write_textgrid  one tier, print precision, fill *)
 (*   tgu   the same for tiers whose entries are listed in ANY order and    *)
 (*         may overlap / nest: sorted read-back, tier start / end, fill    *)
@@ -42,6 +43,10 @@ CONSTANTS
   CtmItems,      \* max tokens of the first utterance
   CtmItems2,     \* max tokens of a second utterance (0: single-utterance collections only)
   Waves, Chans,  \* numbers of waveform names / channel names for explicit maps
+  CtmFineUnits,  \* set of [s |-> <<b, k>>, d |-> <<b, k>>]: start times count units of b^k seconds, durations units
+                 \* of b^k seconds (sample-level alignments, zero-length "ticks" whose ends differ in the last bits,
+                 \* absurdly late times): the cases whose fields print in scientific notation
+  CtmFineItems,  \* max tokens of a fine-grained utterance
   \* tg
   TgFirst, TgGaps, TgDurs,  \* first start / gap before an item / duration (base units)
   TgItems,       \* max intervals
@@ -149,14 +154,43 @@ CtmMaps(m) ==     \* [kind, wc]: default channel / one explicit channel / explic
    [kind |-> "chan", wc |-> [i \in 1..m |-> <<i, 2>>]]}
   \cup {[kind |-> "dict", wc |-> f] :
           f \in {g \in [1..m -> (1..Waves) \X (1..Chans)] : \A i, j \in 1..m : i # j => g[i] # g[j]}}
+\* Units.  An item's start counts units of  b^k  seconds and its duration units of  b'^k'  seconds; the case
+\* carries the pair.  Starts are only ever compared with starts and durations with durations (sorting of lines,
+\* sorting by start, equality of what was written and what is read), so the two units never meet.  The
+\* ordinary unit is the millisecond (the harness also renders it as 1/8 s or 1/10 s: every positive time
+\* is then >= 10^-4 s all the same).
+CtmOrdinary == [s |-> <<10, -3>>, d |-> <<10, -3>>]
+CtmMapsFew(m) ==     \* default channel / one explicit channel / one explicit map that reverses the waveforms
+  {mp \in CtmMaps(m) : mp.kind # "dict" \/ \A i \in 1..m : mp.wc[i] = <<m + 1 - i, 2>>}
 CtmCases ==
   IF "ctm" \notin Fams THEN {}
-  ELSE {[utts |-> <<tr>>, map |-> mp] :
+  ELSE {[utts |-> <<tr>>, map |-> mp, unit |-> CtmOrdinary] :
           tr \in (SeqsUpTo(CtmItemSet, CtmItems) \ {<<>>}), mp \in CtmMaps(1)}
        \cup (IF CtmItems2 = 0 THEN {}
-             ELSE {[utts |-> <<t1, t2>>, map |-> mp] :
+             ELSE {[utts |-> <<t1, t2>>, map |-> mp, unit |-> CtmOrdinary] :
                      t1 \in (SeqsUpTo(CtmItemSet2, 2) \ {<<>>}),
                      t2 \in (SeqsUpTo(CtmItemSet2, CtmItems2) \ {<<>>}), mp \in CtmMaps(2)})
+       \* the same grids of counts in the fine (and the absurdly coarse) units
+       \cup {[utts |-> <<tr>>, map |-> mp, unit |-> u] :
+               tr \in (SeqsUpTo(CtmItemSet, CtmFineItems) \ {<<>>}), mp \in CtmMapsFew(1), u \in CtmFineUnits}
+       \cup (IF CtmItems2 = 0 THEN {}
+             ELSE {[utts |-> <<<<x1>>, <<x2>>>>, map |-> mp, unit |-> u] :
+                     x1 \in CtmItemSet2, x2 \in CtmItemSet2, mp \in CtmMapsFew(2), u \in CtmFineUnits})
+
+\* How a time is PRINTED.  write_ctm prints start and duration with '{}'.format, i.e. Python's repr of a float:
+\* positional notation ("0.0003125") for x = 0 and for 10^-4 <= x < 10^16, scientific notation ("6.25e-05",
+\* "1e+16") otherwise.  Both are ways of writing the same number; which one a field uses depends on nothing but
+\* its magnitude.  (cnt units of b^k seconds; all integers stay far below 2^31)
+RECURSIVE BelowPow(_, _, _)
+BelowPow(x, b, k) == IF k = 0 THEN x < 1 ELSE BelowPow(x \div b, b, k - 1)        \* x < b^k, for x >= 0
+ASSUME \A u \in CtmFineUnits \cup {CtmOrdinary} : \A w \in {u.s, u.d} : w[1] \in {2, 10} /\ (w[2] > 0 => w[1] = 10)
+Notation(cnt, w) ==
+  IF cnt = 0 THEN "plain"
+  ELSE IF w[2] <= 0 THEN (IF BelowPow(cnt * 10000, w[1], 0 - w[2]) THEN "sci" ELSE "plain")     \* cnt b^k < 10^-4
+  ELSE IF w[2] >= 16 \/ ~BelowPow(cnt, 10, 16 - w[2]) THEN "sci" ELSE "plain"                  \* cnt 10^k >= 10^16
+\* The reader converts the two time fields of a line with float(), which understands both notations; a field
+\* it could not convert would end the read with "Could not parse line ..." (ValueError)
+CtmFieldOK(note) == note \in {"plain", "sci"}
 
 \* code-shaped writer: one line per token, the list of lines sorted as tuples
 CtmLinesUnsorted(cs) ==
@@ -182,6 +216,10 @@ CtmRead(cs) ==
   IN [j \in 1..Len(order) |->
         LET g == group(order[j])
         IN [uid |-> order[j], items |-> Values(StableSort([k \in 1..Len(g) |-> <<<<g[k][2].s>>, g[k][2]>>]))]]
+\* ... which presupposes that every line could be read at all: <<notation of the start, of the duration>> per line
+CtmLineNotes(cs) == [k \in 1..Len(CtmLines(cs)) |-> <<Notation(CtmLines(cs)[k][3], cs.unit.s), Notation(CtmLines(cs)[k][4], cs.unit.d)>>]
+CtmReadable(cs) == \A k \in 1..Len(CtmLines(cs)) : CtmFieldOK(CtmLineNotes(cs)[k][1]) /\ CtmFieldOK(CtmLineNotes(cs)[k][2])
+CtmHasSci(cs) == \E k \in 1..Len(CtmLines(cs)) : \E j \in 1..2 : CtmLineNotes(cs)[k][j] = "sci"
 \* declarative: what "equal up to the mandated ordering" means
 CtmCanonOK(cs, res) ==
   /\ {res[j].uid : j \in 1..Len(res)} = 1..Len(cs.utts)
@@ -465,7 +503,10 @@ TrnIdInjective == (fam = "trnid" /\ Ready) =>
   \A i, j \in 1..Len(cs.ids) : cs.ids[i] # cs.ids[j] => ReadId(TrnIdLine(i)) # ReadId(TrnIdLine(j))
 
 \* ctm: the sorted-lines writer + grouping reader returns the collection up to the mandated ordering
-CtmRoundTrip == (fam = "ctm" /\ Ready) => (CtmCanonOK(cs, lines) /\ CtmTieSorted(cs, lines))
+\* (whatever the magnitude of the times: every field the writer prints is one the reader can convert)
+CtmRoundTrip == (fam = "ctm" /\ Ready) => (CtmReadable(cs) /\ CtmCanonOK(cs, lines) /\ CtmTieSorted(cs, lines))
+\* the ordinary unit never leaves positional notation: the scientific one is met only through CtmFineUnits
+CtmOrdinaryPlain == (fam = "ctm" /\ Ready /\ cs.unit = CtmOrdinary) => ~CtmHasSci(cs)
 CtmLinesSorted == (fam = "ctm" /\ Ready) =>
   LET L == CtmLines(cs) IN \A k \in 1..(Len(L) - 1) : ~LexLess(L[k + 1], L[k])
 
@@ -516,7 +557,8 @@ Export ==
              depth |-> [i \in 1..Len(cs) |-> Depth(cs[i])]])
   /\ (fam = "ctm" /\ Ready) =>
        Emit([fam |-> "ctm", utts |-> cs.utts, kind |-> cs.map.kind, wc |-> cs.map.wc,
-             lines |-> CtmLines(cs), canon |-> lines])
+             lines |-> CtmLines(cs), canon |-> lines,
+             unit |-> cs.unit, ordinary |-> cs.unit = CtmOrdinary, notes |-> CtmLineNotes(cs), sci |-> CtmHasSci(cs)])
   /\ (fam = "tg" /\ Ready) =>
        Emit([fam |-> "tg", tr |-> cs.tr, prec |-> cs.prec, judge |-> TgJudgeable(cs.tr, cs.prec),
              tie |-> \E t \in TgTimes(cs.tr) : HasTie(t, cs.prec),
